@@ -154,80 +154,95 @@ Definition add_bytes_read (s : pstate) (n : N) : pstate :=
 Definition res_outcome {A} (r : res A) : outcome A :=
   match r with ROk a => Ok a | RErr => Err EInvalid | RUnknown => Err EUnknown end.
 
-(* the arms of parse_event's match, for a known event code *)
+(* ---- the arms of parse_event's match on the event code ---- *)
+Definition push_pre (rw : row) (d : cdata) : cdata :=
+  {| c_pre := c_pre d ++ [rw]; c_post := c_post d; c_valid := option_map (fun b => b ++ [true]) (c_valid d) |}.
+Definition push_post (rw : row) (d : cdata) : cdata :=
+  {| c_pre := c_pre d; c_post := c_post d ++ [rw]; c_valid := c_valid d |}.
+
+Definition arm_gecko (buf : list byte) (s : pstate) : outcome pstate :=
+  Ok (set_gecko s {| gk_bytes := buf; gk_actual := ps_split_actual s |}).
+
+Definition arm_end (buf : list byte) (s : pstate) : outcome pstate :=
+  (* no FrameEnd events before v3.0: the last frame is still open *)
+  let s1 := if vlt (ver s) 3 0 then frame_close s else s in
+  e <- res_outcome (game_end buf) ;; Ok (set_end s1 e).
+
+Definition arm_fstart (buf : list byte) (s : pstate) : outcome pstate :=
+  let s1 := if vlt (ver s) 3 0 then frame_close s else s in
+  '(id, r) <- i32_at buf ;;
+  match f_start (ps_frames s1) with
+  | None => Err EInvalid
+  | Some rows =>
+      let s2 := frame_open s1 id in
+      rw <- read_push (sz_start (ps_layout s)) r ;;
+      let fr := ps_frames s2 in
+      Ok (set_frames s2 {| f_ids := f_ids fr; f_chars := f_chars fr; f_start := Some (rows ++ [rw]);
+                           f_end := f_end fr; f_item_off := f_item_off fr; f_item := f_item fr |})
+  end.
+
+Definition arm_pre (buf : list byte) (s : pstate) : outcome pstate :=
+  '(id, r) <- i32_at buf ;;
+  '(port, r) <- u8_hd r ;;
+  '(folb, r) <- u8_hd r ;;
+  let fol := negb (N.eqb folb 0) in
+  s1 <- (if vgte (ver s) 2 2 then (_ <- expect_id s id ;; Ok s)
+         else
+           let lid := match last_id s with Some l => l | None => (FIRST_INDEX - 1)%Z end in
+           if Z.eqb (lid + 1) id then Ok (frame_open (frame_close s) id)
+           else (_ <- expect_id s id ;; Ok s)) ;;
+  i <- data_lookup s1 port fol ;;
+  rw <- read_push (sz_pre (ps_layout s)) r ;;
+  Ok (set_frames s1 (upd_char (ps_frames s1) i (push_pre rw))).
+
+Definition arm_post (buf : list byte) (s : pstate) : outcome pstate :=
+  '(id, r) <- i32_at buf ;;
+  '(port, r) <- u8_hd r ;;
+  '(folb, r) <- u8_hd r ;;
+  let fol := negb (N.eqb folb 0) in
+  _ <- expect_id s id ;;
+  i <- data_lookup s port fol ;;
+  rw <- read_push (sz_post (ps_layout s)) r ;;
+  Ok (set_frames s (upd_char (ps_frames s) i (push_post rw))).
+
+Definition arm_fend (buf : list byte) (s : pstate) : outcome pstate :=
+  '(id, r) <- i32_at buf ;;
+  _ <- expect_id s id ;;
+  let fr := ps_frames s in
+  match f_end fr, f_item_off fr, f_item fr with
+  | Some erows, Some offs, Some items =>
+      rw <- read_push (sz_end (ps_layout s)) r ;;
+      let fr' := {| f_ids := f_ids fr; f_chars := f_chars fr; f_start := f_start fr;
+                    f_end := Some (erows ++ [rw]);
+                    f_item_off := Some (offs ++ [Z.of_nat (length items)]); f_item := f_item fr |} in
+      Ok (frame_close (set_frames s fr'))
+  | None, _, _ => Err EInvalid
+  | _, _, _ => Panic 201     (* item_offset / item unwrap: created under the same gate as end *)
+  end.
+
+Definition arm_item (buf : list byte) (s : pstate) : outcome pstate :=
+  '(id, r) <- i32_at buf ;;
+  _ <- expect_id s id ;;
+  let fr := ps_frames s in
+  match f_item fr with
+  | None => Err EInvalid
+  | Some items =>
+      rw <- read_push (sz_item (ps_layout s)) r ;;
+      Ok (set_frames s {| f_ids := f_ids fr; f_chars := f_chars fr; f_start := f_start fr; f_end := f_end fr;
+                          f_item_off := f_item_off fr; f_item := Some (items ++ [rw]) |})
+  end.
+
 Definition handle_known (code : N) (buf : list byte) (s : pstate) : outcome pstate :=
-  let v := ver s in
   if N.eqb code Event_Payloads then Err EInvalid
   else if N.eqb code Event_MessageSplitter then Ok s
-  else if N.eqb code Event_GeckoCodes then
-    Ok (set_gecko s {| gk_bytes := buf; gk_actual := ps_split_actual s |})
+  else if N.eqb code Event_GeckoCodes then arm_gecko buf s
   else if N.eqb code Event_GameStart then Err EInvalid
-  else if N.eqb code Event_GameEnd then
-    (* no FrameEnd events before v3.0: the last frame is still open *)
-    let s1 := if vlt v 3 0 then frame_close s else s in
-    e <- res_outcome (game_end buf) ;; Ok (set_end s1 e)
-  else if N.eqb code Event_FrameStart then
-    let s1 := if vlt v 3 0 then frame_close s else s in
-    '(id, r) <- i32_at buf ;;
-    match f_start (ps_frames s1) with
-    | None => Err EInvalid
-    | Some rows =>
-        let s2 := frame_open s1 id in
-        rw <- read_push (sz_start (ps_layout s)) r ;;
-        let fr := ps_frames s2 in
-        Ok (set_frames s2 {| f_ids := f_ids fr; f_chars := f_chars fr; f_start := Some (rows ++ [rw]);
-                             f_end := f_end fr; f_item_off := f_item_off fr; f_item := f_item fr |})
-    end
-  else if N.eqb code Event_FramePre then
-    '(id, r) <- i32_at buf ;;
-    '(port, r) <- u8_hd r ;;
-    '(folb, r) <- u8_hd r ;;
-    let fol := negb (N.eqb folb 0) in
-    s1 <- (if vgte v 2 2 then (_ <- expect_id s id ;; Ok s)
-           else
-             let lid := match last_id s with Some l => l | None => (FIRST_INDEX - 1)%Z end in
-             if Z.eqb (lid + 1) id then Ok (frame_open (frame_close s) id)
-             else (_ <- expect_id s id ;; Ok s)) ;;
-    i <- data_lookup s1 port fol ;;
-    rw <- read_push (sz_pre (ps_layout s)) r ;;
-    Ok (set_frames s1 (upd_char (ps_frames s1) i
-          (fun d => {| c_pre := c_pre d ++ [rw]; c_post := c_post d;
-                       c_valid := option_map (fun b => b ++ [true]) (c_valid d) |})))
-  else if N.eqb code Event_FramePost then
-    '(id, r) <- i32_at buf ;;
-    '(port, r) <- u8_hd r ;;
-    '(folb, r) <- u8_hd r ;;
-    let fol := negb (N.eqb folb 0) in
-    _ <- expect_id s id ;;
-    i <- data_lookup s port fol ;;
-    rw <- read_push (sz_post (ps_layout s)) r ;;
-    Ok (set_frames s (upd_char (ps_frames s) i
-          (fun d => {| c_pre := c_pre d; c_post := c_post d ++ [rw]; c_valid := c_valid d |})))
-  else if N.eqb code Event_FrameEnd then
-    '(id, r) <- i32_at buf ;;
-    _ <- expect_id s id ;;
-    let fr := ps_frames s in
-    match f_end fr, f_item_off fr, f_item fr with
-    | Some erows, Some offs, Some items =>
-        rw <- read_push (sz_end (ps_layout s)) r ;;
-        let fr' := {| f_ids := f_ids fr; f_chars := f_chars fr; f_start := f_start fr;
-                      f_end := Some (erows ++ [rw]);
-                      f_item_off := Some (offs ++ [Z.of_nat (length items)]); f_item := f_item fr |} in
-        Ok (frame_close (set_frames s fr'))
-    | None, _, _ => Err EInvalid
-    | _, _, _ => Panic 201     (* item_offset / item unwrap: created under the same gate as end *)
-    end
-  else if N.eqb code Event_Item then
-    '(id, r) <- i32_at buf ;;
-    _ <- expect_id s id ;;
-    let fr := ps_frames s in
-    match f_item fr with
-    | None => Err EInvalid
-    | Some items =>
-        rw <- read_push (sz_item (ps_layout s)) r ;;
-        Ok (set_frames s {| f_ids := f_ids fr; f_chars := f_chars fr; f_start := f_start fr; f_end := f_end fr;
-                            f_item_off := f_item_off fr; f_item := Some (items ++ [rw]) |})
-    end
+  else if N.eqb code Event_GameEnd then arm_end buf s
+  else if N.eqb code Event_FrameStart then arm_fstart buf s
+  else if N.eqb code Event_FramePre then arm_pre buf s
+  else if N.eqb code Event_FramePost then arm_post buf s
+  else if N.eqb code Event_FrameEnd then arm_fend buf s
+  else if N.eqb code Event_Item then arm_item buf s
   else Ok s.
 
 (* handle_splitter_event + the code/buffer substitution in parse_event; returns the code parse_event reports *)
